@@ -14,8 +14,9 @@ executed through `Uniflow.Process.step` only.
 
 A line is a *macro step*: the named atomic step, then further atomic steps of the same thread
 until it is free again, or its next step is running a user hook (the real goroutine is parked
-at the entry of the harness hook), or it is blocked in `Join`. Afterwards every thread blocked
-in `Join` whose counter is 0 returns (the real `Wait` returns by itself).
+at the entry of the harness hook), or it is parked in `Join`'s `Wait`. Afterwards every thread
+that a Broadcast of this macro step woke re-tests `Join`'s loop condition (the real goroutine does
+so by itself): it returns, or parks again.
 
 Answer: `<result>|<events>|<threads>|<procs>`
   events : `h:H.E` user hook H ran with error E (chronological; hook ids may be shared between
@@ -45,7 +46,8 @@ def parked (s : State) (t : Nat) : Parked :=
   let th := s.threads t
   match th.pc with
   | .forkReg _ => .runnable
-  | .joining p => if (s.procs p).waitCnt = 0 then .runnable else .join p
+  | .joining _ => .runnable
+  | .waiting p => .join p
   | .idle =>
     match th.stack with
     | [] => .free
@@ -65,17 +67,18 @@ def runUntilParked (fuel : Nat) (s : State) (t : Nat) : State :=
     | .runnable => runUntilParked fuel (step s t .cont) t
     | _ => s
 
-/-- joins that can return do so; returns the new state and the threads that returned. -/
+/-- woken joiners re-test the loop condition; returns the new state and the threads that returned. -/
 def autoJoin (s : State) (skip : Nat) : List Nat → State × List Nat
   | [] => (s, [])
   | t :: ts =>
     if t ≠ skip then
       match (s.threads t).pc with
-      | .joining p =>
-        if (s.procs p).waitCnt = 0 then
-          let (s', r) := autoJoin (step s t .cont) skip ts
-          (s', t :: r)
-        else autoJoin s skip ts
+      | .joining _ =>
+        let s1 := step s t .cont
+        let (s', r) := autoJoin s1 skip ts
+        match (s1.threads t).pc with
+        | .idle => (s', t :: r)
+        | _ => (s', r)
       | _ => autoJoin s skip ts
     else autoJoin s skip ts
 
@@ -103,7 +106,7 @@ def showEvents (newLog : List LogE) : List String :=
 
 def digest (res : String) (ev : List String) (s : State) : String :=
   res ++ "|" ++ joinSp ev ++ "|" ++ joinSp ((List.range nWorkers).map (showThread s)) ++ "|" ++
-    joinSp ((List.range s.np).map (showProc s)) ++ (if s.wgPanic then "|PANIC" else "")
+    joinSp ((List.range s.np).map (showProc s))
 
 /-- macro step of worker `t` whose first atomic step is `a`. -/
 def macroStep (st : St) (t : Nat) (a : Action) (ret : String) : St × String :=
